@@ -169,6 +169,8 @@ type c17RefMetric struct {
 	maxAbs    float64
 	nearFence bool
 	outliers  int
+	nonFinite int  // NaN / +Inf / -Inf measurements among the values
+	undecided bool // a quartile would have to be read off a non-finite value, or depends on where NaN is ordered
 }
 
 type c17RefKey struct {
@@ -182,40 +184,64 @@ type c17Model struct {
 	benches   map[string][]string
 	metrics   map[c17RefKey]*c17RefMetric
 	nearFence bool
+	undecided bool
 	outliers  int
+	nonFinite int
 }
 
 func c17Rat(f float64) *big.Rat { return new(big.Rat).SetFloat64(f) }
 
+func c17Finite(v float64) bool { return !math.IsNaN(v) && !math.IsInf(v, 0) }
+
 // c17QuartilesR8 returns the Hyndman-Fan type 8 quartiles of xs exactly:
 // h = (N+1/3)p + 1/3, Q = x[floor h] + (h - floor h)(x[floor h + 1] - x[floor h])
-// with 1-based order statistics, clamped to the extremes.
-func c17QuartilesR8(xs []float64) (q1, q3 *big.Rat) {
+// with 1-based order statistics, clamped to the extremes. xs is ordered as Go
+// orders float64 (NaN first, then -Inf ... +Inf). ok is false when an order
+// statistic the quartiles are read from is not a finite number.
+func c17QuartilesR8(xs []float64) (q1, q3 *big.Rat, ok bool) {
 	s := append([]float64(nil), xs...)
 	sort.Float64s(s)
 	n := int64(len(s))
+	ok = n > 0
+	cell := func(i int64) *big.Rat {
+		if !c17Finite(s[i]) {
+			ok = false
+			return new(big.Rat)
+		}
+		return c17Rat(s[i])
+	}
 	at := func(num int64) *big.Rat { // h = num/12
 		h := big.NewRat(num, 12)
 		k := new(big.Int).Quo(h.Num(), h.Denom()).Int64() // h > 0: floor
 		if k <= 0 {
-			return c17Rat(s[0])
+			return cell(0)
 		}
 		if k >= n {
-			return c17Rat(s[n-1])
+			return cell(n - 1)
 		}
 		frac := new(big.Rat).Sub(h, big.NewRat(k, 1))
-		lo, hi := c17Rat(s[k-1]), c17Rat(s[k])
+		lo, hi := cell(k-1), cell(k)
 		d := new(big.Rat).Sub(hi, lo)
 		d.Mul(d, frac)
 		return d.Add(d, lo)
 	}
-	return at(3*n + 5), at(9*n + 7)
+	if !ok {
+		return nil, nil, false
+	}
+	q1, q3 = at(3*n+5), at(9*n+7)
+	return q1, q3, ok
 }
 
 func c17AbsRat(r *big.Rat) *big.Rat { return new(big.Rat).Abs(r) }
 
-func (m *c17RefMetric) compute() {
-	q1, q3 := c17QuartilesR8(m.values)
+// c17Within returns the positions of the values of all that lie within 1.5
+// IQR of the quartiles of quart (a NaN or an infinity never does: the fences
+// are finite), and whether a finite value lies within 1e-9 relative of a fence.
+func c17Within(all, quart []float64) (keep []int, nearFence, ok bool) {
+	q1, q3, ok := c17QuartilesR8(quart)
+	if !ok {
+		return nil, false, false
+	}
 	iqr := new(big.Rat).Sub(q3, q1)
 	w := new(big.Rat).Mul(iqr, big.NewRat(3, 2))
 	lo := new(big.Rat).Sub(q1, w)
@@ -227,10 +253,9 @@ func (m *c17RefMetric) compute() {
 			scale = a
 		}
 	}
-	sum := new(big.Rat)
-	for _, v := range m.values {
-		if a := math.Abs(v); a > m.maxAbs {
-			m.maxAbs = a
+	for i, v := range all {
+		if !c17Finite(v) {
+			continue
 		}
 		rv := c17Rat(v)
 		if iqr.Sign() != 0 {
@@ -242,17 +267,64 @@ func (m *c17RefMetric) compute() {
 			for _, f := range []*big.Rat{lo, hi} {
 				d := new(big.Rat).Sub(rv, f)
 				if c17AbsRat(d).Cmp(eps) <= 0 {
-					m.nearFence = true
+					nearFence = true
 				}
 			}
 		}
 		if lo.Cmp(rv) <= 0 && rv.Cmp(hi) <= 0 {
-			m.retained = append(m.retained, v)
-			sum.Add(sum, rv)
-		} else {
-			m.outliers++
+			keep = append(keep, i)
 		}
 	}
+	return keep, nearFence, true
+}
+
+func (m *c17RefMetric) compute() {
+	nan := 0
+	var noNaN []float64
+	for _, v := range m.values {
+		if !c17Finite(v) {
+			m.nonFinite++
+		}
+		if math.IsNaN(v) {
+			nan++
+		} else {
+			noNaN = append(noNaN, v)
+			if a := math.Abs(v); a > m.maxAbs && !math.IsInf(v, 0) {
+				m.maxAbs = a
+			}
+		}
+	}
+	keep, near, ok := c17Within(m.values, m.values)
+	if !ok {
+		m.undecided = true
+		return
+	}
+	m.nearFence = near
+	if nan > 0 {
+		// The statement does not say where a NaN stands among the ordered
+		// values. Judge the sample only if leaving the NaN out of the quartile
+		// computation selects the same values as Go's order (NaN first).
+		keep2, near2, ok2 := c17Within(m.values, noNaN)
+		if !ok2 || len(keep2) != len(keep) {
+			m.undecided = true
+			return
+		}
+		for i := range keep {
+			if keep[i] != keep2[i] {
+				m.undecided = true
+				return
+			}
+		}
+		if near2 {
+			m.nearFence = true
+		}
+	}
+	sum := new(big.Rat)
+	for _, i := range keep {
+		m.retained = append(m.retained, m.values[i])
+		sum.Add(sum, c17Rat(m.values[i]))
+	}
+	m.outliers = len(m.values) - len(keep)
 	if len(m.retained) == 0 {
 		m.min, m.max, m.mean = math.NaN(), math.NaN(), math.NaN()
 		return
@@ -321,8 +393,14 @@ func c17BuildModel(c c17Case) *c17Model {
 		if rm.nearFence {
 			m.nearFence = true
 		}
+		if rm.undecided {
+			m.undecided = true
+		}
 		if rm.outliers > 0 {
 			m.outliers++
+		}
+		if rm.nonFinite > 0 {
+			m.nonFinite++
 		}
 	}
 	return m
@@ -376,12 +454,18 @@ func c17Hash(seed uint64, unit string, a, b []float64) uint64 {
 	put(seed)
 	h.Write([]byte(unit))
 	put(uint64(len(a)))
+	bitsOf := func(v float64) uint64 {
+		if v != v {
+			return 0x7FF8000000000001 // every NaN alike
+		}
+		return math.Float64bits(v)
+	}
 	for _, v := range a {
-		put(math.Float64bits(v))
+		put(bitsOf(v))
 	}
 	put(uint64(len(b)))
 	for _, v := range b {
-		put(math.Float64bits(v))
+		put(bitsOf(v))
 	}
 	x := h.Sum64()
 	x ^= x >> 29
@@ -484,7 +568,7 @@ func c17SameFloats(a, b []float64) bool {
 		return false
 	}
 	for i := range a {
-		if math.Float64bits(a[i]) != math.Float64bits(b[i]) {
+		if math.Float64bits(a[i]) != math.Float64bits(b[i]) && !(a[i] != a[i] && b[i] != b[i]) {
 			return false
 		}
 	}
@@ -553,9 +637,16 @@ func c17Build(c c17Case) *benchstat.Collection {
 
 func c17Check(c c17Case) *kit.Fail {
 	model := c17BuildModel(c)
+	if model.undecided {
+		kit.Count("C17 cases skipped (a quartile falls on a NaN/Inf measurement or depends on where NaN is ordered)", 1)
+		return nil
+	}
 	if model.nearFence {
 		kit.Count("C17 cases skipped (a value within 1e-9 relative of a fence)", 1)
 		return nil
+	}
+	if model.nonFinite > 0 && (c.Test == "nil" || c.Test == "u") {
+		return nil // outside the generated domain (see NOTES.md: NaN-bearing collections never use the U test)
 	}
 	_, refTest := c17Test(c)
 	alpha := c17Alpha(c)
@@ -757,6 +848,9 @@ func c17Check(c c17Case) *kit.Fail {
 				}
 				if rm.outliers > 0 {
 					kit.Count("C17 metrics with outliers removed", 1)
+				}
+				if rm.nonFinite > 0 {
+					kit.Count("C17 metrics with a NaN or infinite measurement (must not be retained)", 1)
 				}
 			}
 			if ncfg != 2 {
@@ -1032,7 +1126,7 @@ func c17CheckFormats(c c17Case, tables []*benchstat.Table) *kit.Fail {
 
 func c17NonTrivial(c c17Case) bool {
 	m := c17BuildModel(c)
-	if m.nearFence {
+	if m.nearFence || m.undecided {
 		return false
 	}
 	if m.outliers > 0 {
@@ -1137,6 +1231,7 @@ func c17Gen(r *kit.Rand, i int) c17Case {
 	c.SynthSeed = r.Uint64()
 	c.NoRange = r.Bool()
 	nmin, nmax := 1, 12
+	var spaced []map[string]string // label sets with phrase values (flavour 7)
 	switch flavour {
 	case 4: // many rows, ties under the order
 		ncfg = 2
@@ -1154,6 +1249,56 @@ func c17Gen(r *kit.Rand, i int) c17Case {
 		c.SplitBy = kit.Pick(r, [][]string{{"goos"}, {"size"}, {"goos", "size"}, {"gomaxprocs"}, {"pkg", "goos"}, {"name"}})
 		if c.Order == "" && r.Bool() {
 			c.Order = kit.Pick(r, []string{"name", "rname", "len"})
+		}
+		if r.Chance(0.5) {
+			// Two or three split labels whose values are phrases: the same
+			// word sequence cut at different places gives different value
+			// tuples (= different groups) whose texts, written one after the
+			// other, look alike.
+			keys := kit.Pick(r, [][]string{{"cpu", "note"}, {"host", "cpu"}, {"cpu", "note", "host"}, {"note", "cpu", "goos"}})
+			c.SplitBy = append([]string(nil), keys...)
+			if r.Chance(0.25) {
+				at := r.Intn(len(c.SplitBy) + 1)
+				c.SplitBy = append(c.SplitBy[:at], append([]string{kit.Pick(r, []string{"size", "gomaxprocs"})}, c.SplitBy[at:]...)...)
+			}
+			vocab := []string{"Xeon", "E5", "v2", "turbo", "Gold", "rev", "B", "2.4GHz", "no", "boost", "rack", "7", "a", "a", "x86-64", "L2=1MiB"}
+			nw := len(keys) + r.Range(1, 3)
+			words := make([]string, nw)
+			for j := range words {
+				words[j] = kit.Pick(r, vocab)
+			}
+			cut := func(ws []string) map[string]string { // random cut into len(keys) non-empty phrases
+				pos := r.Perm(len(ws) - 1)[:len(keys)-1]
+				sort.Ints(pos)
+				m := map[string]string{}
+				start := 0
+				for j, k := range keys {
+					end := len(ws)
+					if j < len(pos) {
+						end = pos[j] + 1
+					}
+					m[k] = strings.Join(ws[start:end], " ")
+					start = end
+				}
+				return m
+			}
+			spaced = nil
+			for j := 0; j < 4; j++ {
+				spaced = append(spaced, cut(words))
+			}
+			rev := make([]string, nw)
+			for j := range words {
+				rev[nw-1-j] = words[j]
+			}
+			spaced = append(spaced, cut(rev))
+			one := cut(words)
+			delete(one, keys[r.Intn(len(keys))])
+			spaced = append(spaced, one, map[string]string{})
+			if r.Bool() {
+				for _, m := range spaced {
+					m["pkg"] = "p/q"
+				}
+			}
 		}
 	}
 	if r.Chance(0.08) {
@@ -1220,6 +1365,9 @@ func c17Gen(r *kit.Rand, i int) c17Case {
 	labelsPool := []map[string]string{
 		{}, {"goos": "linux"}, {"goos": "darwin"}, {"goos": "linux", "pkg": "p/q"}, {"pkg": "p/r", "goarch": "amd64"},
 	}
+	if spaced != nil {
+		labelsPool = spaced
+	}
 	for ci := 0; ci < ncfg; ci++ {
 		cf := c17Config{Name: kit.Pick(r, []string{"old", "new", "base", "tip", "dir/a", "dir/b"}) + strconv.Itoa(ci), Text: r.Bool()}
 		type run struct {
@@ -1254,7 +1402,13 @@ func c17Gen(r *kit.Rand, i int) c17Case {
 			counts[ru.bi]++
 		}
 		vals := map[[2]int][]float64{}
-		for bi, n := range counts {
+		var bis []int
+		for bi := range counts {
+			bis = append(bis, bi)
+		}
+		sort.Ints(bis) // map order must not steer the random stream
+		for _, bi := range bis {
+			n := counts[bi]
 			for ui := range units {
 				d := dists[[2]int{bi, ui}]
 				vals[[2]int{bi, ui}] = c17Sample(r, d.kind, d.base, d.factors[ci], d.sd, n)
@@ -1286,6 +1440,42 @@ func c17Gen(r *kit.Rand, i int) c17Case {
 		}
 		c.Configs = append(c.Configs, cf)
 	}
+	// NaN and infinite measurements (Go prints NaN for a 0/0 custom metric):
+	// they are never within the fences, so they must be dropped like any
+	// outlier. Only in samples of >= 7 values (>= 11 for two of them), so that
+	// the quartiles are read off finite values, and ONLY in collections whose
+	// delta test is the t test, none or the caller-supplied one: a change that
+	// lets a NaN through to the U test makes internal/stats loop forever.
+	if (c.Test == "t" || c.Test == "none" || c.Test == "synth") && r.Chance(0.3) {
+		type pos struct{ ci, li, mi int }
+		byKey := map[c17RefKey][]pos{}
+		var order []c17RefKey
+		for ci, cf := range c.Configs {
+			for li, l := range cf.Lines {
+				for mi, ms := range l.Meas {
+					k := c17RefKey{ci, c17GroupID(c, l), l.name(), ms.U}
+					if byKey[k] == nil {
+						order = append(order, k)
+					}
+					byKey[k] = append(byKey[k], pos{ci, li, mi})
+				}
+			}
+		}
+		for _, k := range order {
+			ps := byKey[k]
+			if len(ps) < 7 || !r.Chance(0.5) {
+				continue
+			}
+			cnt := 1
+			if len(ps) >= 11 && r.Chance(0.3) {
+				cnt = 2
+			}
+			for _, j := range r.Perm(len(ps))[:cnt] {
+				q := ps[j]
+				c.Configs[q.ci].Lines[q.li].Meas[q.mi].V = kit.F(kit.Pick(r, []float64{math.NaN(), math.NaN(), math.NaN(), math.Inf(1), math.Inf(-1)}))
+			}
+		}
+	}
 	// alpha exactly equal to the p-value of one comparable row
 	if ncfg == 2 && (c.Test == "u" || c.Test == "t" || c.Test == "nil") && r.Chance(0.25) {
 		m := c17BuildModel(c)
@@ -1309,6 +1499,6 @@ func TestVerifC17(t *testing.T) {
 	kit.Run(t, "C17", kit.Class[c17Case]{
 		Name: "collections", Quick: 12000, Thorough: 300000,
 		Gen: c17Gen, Check: c17Check, NonTrivial: c17NonTrivial, MinNonTrivial: 8000,
-		Rule: "generated legacy collections: 1-4 configurations (half of them two), 1-40 benchmarks with size/procs name parts, repeated and missing benchmarks, 1-3 units incl. MB/s, samples of 1-30 values (noise, outliers, constants, zeros, tied small integers), file labels and SplitBy, delta test nil/U/t/none/caller-supplied, alpha incl. exactly the p of a row, order none/name/delta/len and reversed, geomean on/off, fed as text (AddConfig) or results (AddResults). Non-trivial = no value within 1e-9 of a fence and (an outlier was removed, or two configurations share a row, or a sort order applies to >=2 rows)",
+		Rule: "generated legacy collections: 1-4 configurations (half of them two), 1-40 benchmarks with size/procs name parts, repeated and missing benchmarks, 1-3 units incl. MB/s, samples of 1-30 values (noise, outliers, constants, zeros, tied small integers; in collections not using the U test also a NaN/+Inf/-Inf measurement in samples of >= 7), file labels and SplitBy (incl. 2-4 split labels whose values are phrases with spaces, cut from one word sequence at different places), delta test nil/U/t/none/caller-supplied, alpha incl. exactly the p of a row, order none/name/delta/len and reversed, geomean on/off, fed as text (AddConfig) or results (AddResults). Non-trivial = no value within 1e-9 of a fence and (an outlier was removed, or two configurations share a row, or a sort order applies to >=2 rows)",
 	})
 }
